@@ -73,6 +73,12 @@ type Obs struct {
 	// type is given here) with the raw timestamp Illegal.  Nothing is demanded of it - but it must not
 	// disturb the times of the four constellations' messages around it.
 	Foreign int `json:"foreign_msm_type,omitempty"`
+	// Damaged: the frame of constellation C with the raw timestamp Illegal (a legal value, out of order) and
+	// a CRC that does not match - what a bit error in the timestamp field leaves behind.  Runt > 0: a
+	// CRC-valid frame of constellation C's message type whose message is only that many bytes long (4..6:
+	// too short to hold a timestamp).  Neither is an observation; neither may disturb the times of the others.
+	Damaged bool `json:"damaged,omitempty"`
+	Runt    int  `json:"runt_bytes,omitempty"`
 }
 
 type Case struct {
@@ -148,6 +154,33 @@ func CheckDisplayed(c Case, o *stats.Obs, feed Feeder) error {
 	return CheckVia(c, o, wrapped)
 }
 
+// Frames builds the frames of a history (the same ones CheckVia feeds).
+func (c Case) Frames() [][]byte {
+	frames := make([][]byte, len(c.Msgs))
+	for i, ob := range c.Msgs {
+		ts := ob.Illegal
+		if ts == 0 {
+			ts = Encode(ob.C, ob.U)
+		}
+		typ := msm4Types[ob.C]
+		if ob.MSM7 {
+			typ += 3
+		}
+		if ob.Foreign != 0 {
+			typ = ob.Foreign
+		}
+		m := enc.MSM{Type: typ, StationID: uint(i & 4095), Timestamp: ts}
+		frames[i] = m.Frame()
+		if ob.Damaged {
+			frames[i][len(frames[i])-1] ^= 0x5a
+		}
+		if ob.Runt > 0 {
+			frames[i] = enc.Frame(m.Payload()[:ob.Runt])
+		}
+	}
+	return frames
+}
+
 // CheckVia is Check with the frames delivered by feed (nil: directly through a fresh handler).
 func CheckVia(c Case, o *stats.Obs, feed Feeder) error {
 	lv := slog.LevelInfo
@@ -178,6 +211,13 @@ func CheckVia(c Case, o *stats.Obs, feed Feeder) error {
 		}
 		m := enc.MSM{Type: typ, StationID: uint(i & 4095), Timestamp: ts}
 		frames[i] = m.Frame()
+		if ob.Damaged {
+			frames[i][len(frames[i])-1] ^= 0x5a
+		}
+		if ob.Runt > 0 {
+			frames[i] = enc.Frame(m.Payload()[:ob.Runt])
+			tss[i] = 0
+		}
 	}
 	if feed != nil {
 		c.Stream = true // no per-frame errors this way
@@ -233,7 +273,11 @@ func CheckVia(c Case, o *stats.Obs, feed Feeder) error {
 		fmt.Fprintf(&b, "handler start %s (%s); history:", start.UTC().Format("Mon 2006-01-02 15:04:05.999999999 UTC"), c.Zone)
 		for j := 0; j <= i; j++ {
 			ob := c.Msgs[j]
-			if ob.Foreign != 0 {
+			if ob.Damaged {
+				fmt.Fprintf(&b, "\n  #%d %s frame with timestamp %d and a wrong CRC", j, Names[ob.C], ob.Illegal)
+			} else if ob.Runt > 0 {
+				fmt.Fprintf(&b, "\n  #%d %s frame of %d message bytes (CRC-valid, too short for a timestamp)", j, Names[ob.C], ob.Runt)
+			} else if ob.Foreign != 0 {
 				fmt.Fprintf(&b, "\n  #%d MSM of type %d (another constellation) with timestamp %d", j, ob.Foreign, ob.Illegal)
 			} else if ob.Illegal != 0 {
 				fmt.Fprintf(&b, "\n  #%d %s illegal timestamp %d", j, Names[ob.C], ob.Illegal)
@@ -248,6 +292,9 @@ func CheckVia(c Case, o *stats.Obs, feed Feeder) error {
 		if m == nil {
 			o.Key = "no-message"
 			return fmt.Errorf("message %d: no message returned; %s", i, describe(i))
+		}
+		if ob.Damaged || ob.Runt > 0 {
+			continue
 		}
 		if m.Timestamp != tss[i] {
 			o.Key = "timestamp-field"
@@ -298,6 +345,14 @@ func CheckVia(c Case, o *stats.Obs, feed Feeder) error {
 	prevC := -1
 	illegal := 0
 	for _, ob := range c.Msgs {
+		if ob.Damaged {
+			o.Class("damaged-frame-in-between")
+			continue
+		}
+		if ob.Runt > 0 {
+			o.Class("runt-frame-in-between")
+			continue
+		}
 		if ob.Foreign != 0 {
 			o.Class("other-constellation-msm-in-between")
 			continue
@@ -557,6 +612,30 @@ func GenAt(t *rapid.T, anywhere bool, midnightUTC bool) Case {
 			f := Obs{Foreign: rapid.SampledFrom([]int{1104, 1107, 1114, 1117, 1134, 1137}).Draw(t, "foreignType")}
 			f.Illegal = uint(rapid.SampledFrom([]int{1, 1000, 18000, 604799999, 604790000, 300000000, 1<<30 - 1}).Draw(t, "foreignTs"))
 			at := rapid.IntRange(0, len(c.Msgs)).Draw(t, "foreignAt")
+			c.Msgs = append(c.Msgs[:at], append([]Obs{f}, c.Msgs[at:]...)...)
+		}
+	}
+	// frames that are not observations: damaged ones (legal but out-of-order timestamp, wrong CRC), runts
+	if len(c.Msgs) > 0 && rapid.IntRange(0, 3).Draw(t, "nonObservations") == 2 {
+		k := rapid.IntRange(1, 3).Draw(t, "nNonObs")
+		for i := 0; i < k; i++ {
+			at := rapid.IntRange(0, len(c.Msgs)).Draw(t, "nonObsAt")
+			near := c.Msgs[minInt(at, len(c.Msgs)-1)]
+			f := Obs{C: near.C, MSM7: rapid.Bool().Draw(t, "nonObsMSM7")}
+			if near.Foreign != 0 {
+				f.C = 0
+			}
+			if rapid.Bool().Draw(t, "runt") {
+				f.Runt = rapid.IntRange(2, 6).Draw(t, "runtBytes")
+				f.Illegal = 1
+			} else {
+				f.Damaged = true
+				if f.C == Glonass {
+					f.Illegal = uint(rapid.IntRange(0, 6).Draw(t, "dmgDay"))<<27 | uint(rapid.IntRange(1, 86399999).Draw(t, "dmgMs"))
+				} else {
+					f.Illegal = uint(rapid.SampledFrom([]int{1, 1000, 604799999, 300000000, 150000000, 450000000}).Draw(t, "dmgTs"))
+				}
+			}
 			c.Msgs = append(c.Msgs[:at], append([]Obs{f}, c.Msgs[at:]...)...)
 		}
 	}
